@@ -100,7 +100,9 @@ func (p *DefaultProfile) Config() (conf *ProfileConfig) {
 
 // IsBlocked implements the [Profile] interface for *DefaultProfile.
 func (p *DefaultProfile) IsBlocked(req *dns.Msg, rAddr netip.AddrPort, l *geoip.Location) (blocked bool) {
-	ip := rAddr.Addr()
+	// Remove the IPv6 zone, since [netip.Prefix.Contains] never matches an
+	// address that has one.
+	ip := rAddr.Addr().WithZone("")
 
 	return p.isBlockedByNets(ip, l) || p.isBlockedByHostsEng(req)
 }
